@@ -111,6 +111,8 @@ class World:
         for name in init["models"]:
             m = mx.new_model(name)
             for s in SPACES:
+                if s == "K" and not init.get("child"):
+                    continue        # (configurations without the child space)
                 sp = m.new_space(s) if s != "K" else m.A.new_space(s)
                 sp.new_cells("c", formula="lambda: 1")
             if name in init["base"]:
